@@ -1,6 +1,6 @@
 SPECIFICATION TSpec
 CONSTANTS
-  Accts = {"eoa", "fwd"}
+  Accts = {"eoa", "fwd", "dbl"}
   Start = 5
   Deposit = 1
 CHECK_DEADLOCK FALSE
